@@ -1089,7 +1089,7 @@ def run(tier='quick', replay=None):
             sessions += load_corpus()
             if T is not None:
                 sessions += targeted_sessions(T, rng, bad_keys, bad_ops, os.path.join(core.VERIF, '.work', 'c16files'))
-            nrand = 40 if tier == 'quick' else 320
+            nrand = 32 if tier == 'quick' else 320
             for i in range(nrand):
                 sessions.append(gen_session(rng, tier, 'r%d' % i))
         for i, s in enumerate(sessions):
